@@ -95,6 +95,14 @@ RootHash ==
     /\ UNCHANGED <<db, map, roots, maxLevel>>
     /\ hist' = Log(hist, Rec("RootHash", [x |-> 0], [empty |-> HashOf(root) = Absent]))
 
+\* patriciaMerkleTrie.GetDirtyHashes: setRootHash, then the hashes of the dirty nodes reachable through dirty
+\* nodes -- exactly the set Commit is going to write
+DirtyHashesOf(r, ml) == IF r = Absent THEN {} ELSE CommitN(SetHashes(r), 0, ml).w
+GetDirtyHashes ==
+    /\ root' = SetHashes(root)
+    /\ UNCHANGED <<db, map, roots, maxLevel>>
+    /\ hist' = Log(hist, Rec("GetDirtyHashes", [x |-> 0], [n |-> Cardinality(DirtyHashesOf(root, maxLevel))]))
+
 \* patriciaMerkleTrie.Commit
 WillCommit == root # Absent /\ root.d
 CommitResult == CommitN(SetHashes(root), 0, maxLevel)
@@ -129,6 +137,7 @@ Next ==
     \/ \E k \in Keys : \E v \in ValsFor(k) \cup {0} : Update(k, v)
     \/ \E k \in Keys : DeleteKey(k) \/ Get(k)
     \/ RootHash
+    \/ GetDirtyHashes
     \/ (CommitAllowed /\ Commit)
     \/ \E r \in roots : Recreate(r)
     \/ RecreateEmpty
@@ -194,6 +203,11 @@ Inv_C03_MemoryBacked ==
     /\ \A h \in MemRefs(root) : Nodes(h) \subseteq db            \* every collapsed reference can be resolved
     /\ \A n \in MemNodes(root) : ~n.d => Nodes(Expand(n)) \subseteq db   \* clean nodes are in the DB
     /\ DirtyClosed(root)
+\* GetDirtyHashes bookkeeping: the dirty hashes are exactly the nodes of the current trie that the DB lacks
+\* ... or already holds from an earlier commit of an equal subtree (re-created after a delete): superset form
+Inv_DirtyHashes ==
+    root # Absent => /\ Nodes(Canon(map)) \ db \subseteq DirtyHashesOf(root, maxLevel)
+                     /\ DirtyHashesOf(root, maxLevel) \subseteq Nodes(Canon(map))
 \* a Commit makes the current contents recoverable, Recreate gives back exactly the committed contents
 Act_C03_Commit   == [][(db' # db \/ roots' # roots) => (Nodes(Canon(map')) \subseteq db' /\ map' = map)]_cvars
 Act_C03_Recreate ==
